@@ -32,11 +32,59 @@ CHECKS["C06"] = dict(
     note=LEVEL_NOTE_COMMON,
     engine="lean+hhdrv")
 
+CHECKS["C01"] = dict(
+    technique="Lean 4 theorems over an event-kernel model on the abstract keyed priority queue (invariant by induction over operation "
+              "histories) + regenerated ordering function + observable-log differential correspondence with src/cmb_event.c",
+    text="Props/C01.lean: heap_order_check as re-extracted from the C AST is proved to be the documented (time asc, priority desc, handle "
+         "asc) order; over the event-kernel model: dispatch returns THE lexicographic minimum, sets clock and current event, the clock is "
+         "monotone over every operation history, every issued handle is in exactly one of pending/executed/cancelled (exactly-once, cancelled "
+         "never runs), reschedule/reprioritise change only that field of that event, clock/current stable during an action, pattern "
+         "find/count/cancel agree with the pending set. The model is tied to the code by diffing complete observable logs of generated "
+         "scripts whose operations are issued from outside and from inside running actions; the concrete hashheap is covered by C02.",
+    design_ref="DESIGN.md §3.3, §4 C01",
+    note=LEVEL_NOTE_COMMON + "C01: event times are integers (|t| < 2^53) so double arithmetic is exact; NaN/inf times excluded.",
+    engine="lean+evdrv")
+
+CHECKS["C03"] = dict(
+    technique="Lean 4 theorems over a symbolic x86-64 machine running the instruction list regenerated from the assembled context-switch "
+              "object (objdump, cross-checked with nasm -E) and the store list of the initial frame regenerated from the C source + "
+              "differential correspondence (frame image, first entry / return observed at instruction level, random bookkeeping scripts)",
+    text="Props/C03.lean: for every content of the general purpose registers, RFLAGS, MXCSR and memory, the 22+7 instructions assembled from "
+         "cmi_coroutine_context.asm (re-extracted on every run) write only the 64 bytes below the outgoing rsp and *old; bring a coroutine "
+         "back after any interleaving of other switches and code that leaves its saved frame alone with rbx rbp r12-r15, MXCSR, the "
+         "user-visible flags, rsp and the return address as at switch-out and rax = the value handed over; enter a new coroutine's function "
+         "from the frame cmi_coroutine_context_init writes with rdi = its handle, rsi = its context, rsp = 8 (mod 16), MXCSR = 0x1d00; turn "
+         "a return of that function into a call of the exit function with rdi = the returned value. The bookkeeping (current/caller/parent/"
+         "status/exit value) is proved on a hand-written state machine for arbitrary scripts and tied to src/cmi_coroutine.c by line-by-line "
+         "comparison of random scripts (2-8 coroutines, all nine operations, call depth 0-64) through the real API, also under ASan/UBSan.",
+    design_ref="DESIGN.md §4 C03; notes/C03.md",
+    note=LEVEL_NOTE_COMMON + "C03: my SDM transcription of 14 instruction forms (Ctx/X86.lean; validated against the CPU by seeded register "
+         "files, labelled test evidence); System V callee-saved set; objdump / nasm -E; stacks of distinct coroutines disjoint (malloc). "
+         "Not covered: x87 control word, AVX state, signal masks.",
+    engine="lean+ctxdrv")
+
 PENDING = {
 }
 
 ENGINES = [
     dict(name="lean", path="lean/", serves_properties=[], kind_free_text="Lean 4 project CimbaModel: models, monitors, property theorems (Props/Cnn.lean), compiled model drivers"),
     dict(name="translators", path="tools/c2lean.py", serves_properties=[], kind_free_text="T-gen: clang JSON AST -> Lean definitions, regenerated on every run into lean/CimbaModel/Generated/"),
+    dict(name="evdrv", path="harness/evdrv.c", serves_properties=["C01"], kind_free_text="C driver for the event-kernel script language (ops from outside and inside actions), observable log"),
+    dict(name="ctxdrv", path="harness/ctxdrv.c", serves_properties=["C03"], kind_free_text="C/asm driver: initial frame dump, first-entry / return probes, bookkeeping scripts through the real coroutine API"),
     dict(name="hhdrv", path="harness/hhdrv.c", serves_properties=["C02", "C06"], kind_free_text="C driver for exact-state correspondence of cmi_hashheap.c with the Lean model"),
 ]
+
+
+# ---- entries proposed by the per-property notes (notes/Cnn.md: first ```python block that assigns CHECKS["Cnn"]) ----
+import os as _os, re as _re
+_notes = _os.path.join(_os.path.dirname(_os.path.dirname(_os.path.abspath(__file__))), "notes")
+if _os.path.isdir(_notes):
+    for _f in sorted(_os.listdir(_notes)):
+        _m = _re.match(r"(C\d+)\.md$", _f)
+        if not _m or _m.group(1) in CHECKS:
+            continue
+        _t = open(_os.path.join(_notes, _f)).read()
+        for _blk in _re.findall(r"```python\n(.*?)```", _t, flags=_re.S):
+            if 'CHECKS["%s"]' % _m.group(1) in _blk:
+                exec(_blk)
+                break
